@@ -25,7 +25,7 @@ var tRef = time.Date(2000, 1, 2, 3, 4, 5, 6, time.UTC)
 var fullVals = []val{
 	{"i0", int64(0)}, {"i1", int64(1)}, {"i-1", int64(-1)}, {"i2", int64(2)}, {"imax", int64(math.MaxInt64)}, {"imin", int64(math.MinInt64)},
 	{"f0", float64(0)}, {"f1", float64(1)}, {"f1.5", float64(1.5)}, {"f-2.5", float64(-2.5)},
-	{"s", ""}, {"sa", "a"}, {"sab", "ab"}, {"s1", "1"}, {"strue", "true"}, {"sé", "é"},
+	{"s", ""}, {"sa", "a"}, {"sab", "ab"}, {"s1", "1"}, {"strue", "true"}, {"sé", "é"}, {"s010", "010"}, {"s0x1F", "0x1F"},
 	{"T", true}, {"F", false},
 	{"d0", time.Duration(0)}, {"d1s", time.Second}, {"d-1s", -time.Second}, {"d90m", 90 * time.Minute},
 	{"time", tRef}, {"missing", ast.MissingValue}, {"absent", absent{}},
@@ -54,6 +54,34 @@ type Case struct {
 	Expr  string
 	Mode  string // Eval | Typed | TypeThenTyped
 	Steps []Step
+	// Prelude: the last cases of the same worker that called the same stateful functions. Evaluation must not
+	// depend on them; if state leaks between expressions (a package-level variable, say) the artefact needs them
+	// to reproduce the failure in a fresh process.
+	Prelude []Case `json:",omitempty"`
+}
+
+var statefulFns = []string{"spread(", "count(", "sigma("}
+var recent = map[string][]Case{}
+
+func remember(c Case) {
+	for _, f := range statefulFns {
+		if strings.Contains(c.Expr, f) {
+			l := append(recent[f], Case{Expr: c.Expr, Mode: c.Mode, Steps: c.Steps})
+			if len(l) > 12 {
+				l = l[len(l)-12:]
+			}
+			recent[f] = l
+		}
+	}
+}
+
+func withPrelude(c Case) Case {
+	for _, f := range statefulFns {
+		if strings.Contains(c.Expr, f) {
+			c.Prelude = append(c.Prelude, recent[f]...)
+		}
+	}
+	return c
 }
 
 var valByName = func() map[string]any {
@@ -243,6 +271,31 @@ func run(c Case, stats *stat) *problem {
 			return &problem{"wrong-value", fmt.Sprintf("%s at step %d (x=%s y=%s, mode %s): evaluator returned %v, reference %T(%v) | history %v", c.Expr, i, s.X, s.Y, c.Mode, o, rv, rv, c.Steps)}
 		}
 	}
+	// Independence probe (self-contained, reproducible in a fresh process): after this expression has seen the
+	// history plus two far-apart values, a separately compiled expression must still start from scratch.
+	if usesState(c.Expr) && cerr == nil && len(c.Steps) > 0 {
+		last := c.Steps[len(c.Steps)-1]
+		if e1 := exprs[last.G]; e1 != nil {
+			for _, xn := range []string{"f1.5", "f0"} {
+				sc, _ := mkScope(valByName[xn], valByName[last.Y])
+				callImpl(e1, c.Mode, tBool, sc)
+			}
+		}
+		if e2, err := stateful.NewExpression(lam.Expression); err == nil {
+			sc, m := mkScope(valByName["f1.5"], valByName[last.Y])
+			fresh := newRefState()
+			rt, te := typeOf(lam.Expression, m)
+			rv, re := fresh.eval(lam.Expression, m)
+			// (durations are left out: duration / sigma() divides by 0.0 on a first value, the conversion of the
+			// infinite quotient back to a duration is not defined)
+			if te == eNone && re == eNone && kindOf(rv) != tTime && kindOf(rv) != tRegex && kindOf(rv) != tMissing && kindOf(rv) != tDuration {
+				o := callImpl(e2, c.Mode, rt, sc)
+				if o.panic == nil && o.err == nil && !sameValue(o.v, rv) {
+					return &problem{"state-shared-between-expressions", fmt.Sprintf("%s: a freshly compiled expression evaluated for x=f1.5 y=%s returned %v, reference %T(%v), after another instance had evaluated %v and x=1.5, x=0 (mode %s)", c.Expr, last.Y, o, rv, rv, c.Steps, c.Mode)}
+				}
+			}
+		}
+	}
 	return nil
 }
 
@@ -369,6 +422,23 @@ func functions() []string {
 
 func usesRefs(e string) (bool, bool) { return strings.Contains(e, `"x"`), strings.Contains(e, `"y"`) }
 
+// shape refines a violation key by what the history exercises, so that every kind of failure keeps an artefact
+// of its own (one that state leaking between cases cannot have produced): several groups sharing the compiled
+// tree, or a history of several steps
+func shape(c Case) string {
+	groups := map[int]bool{}
+	for _, s := range c.Steps {
+		groups[s.G] = true
+	}
+	switch {
+	case len(groups) > 1:
+		return ":groups"
+	case len(c.Steps) > 1:
+		return ":history"
+	}
+	return ""
+}
+
 func TestCheck(t *testing.T) {
 	r := rep.New("C04", "model_checking",
 		"lambda expressions: every binary operator x every pair of leaves (literals of every type, references, conversion/stateful function calls, unary nodes), depth-2 nestings, and built-in functions with every argument-type vector; each compiled ONCE and evaluated over every history of scopes (x,y values from a typed boundary alphabet; type-changing histories of length 2-3; two groups sharing the compiled tree through CopyReset) through three entry modes (Eval, typed Eval* without Type, Type then typed Eval*). Oracle: an independent cache-free AST interpreter; result value, result type and error-ness must agree, panics are violations. states = distinct (expression, entry mode, type vector sequence) specialisation histories; non-trivial = cases whose history changes an operand type or advances a stateful function")
@@ -385,8 +455,11 @@ func TestCheck(t *testing.T) {
 			t.Fatal(err)
 		}
 		var st stat
+		for _, pc := range c.Prelude {
+			run(pc, &st)
+		}
 		if p := run(c, &st); p != nil {
-			r.Violation(p.kind+":"+c.Mode, p.msg, c)
+			r.Violation(p.kind+":"+c.Mode+shape(c), p.msg, c)
 		}
 		r.Add("evaluations", 1)
 		return
@@ -430,8 +503,9 @@ func TestCheck(t *testing.T) {
 			r.Add("evaluations", 1)
 			r.Add("transitions", int64(len(steps)))
 			if p := run(c, &st); p != nil {
-				r.Violation(p.kind+":"+mode, p.msg, c)
+				r.Violation(p.kind+":"+mode+shape(c), p.msg, withPrelude(c))
 			}
+			remember(c)
 			if len(steps) > 1 {
 				r.AddDistinct("states", 1)
 				changes := false
